@@ -528,8 +528,14 @@ class Evaluator:
         args = [self.expr(a) for a in n.args]
         kwargs = {k.arg: self.expr(k.value) for k in n.keywords if k.arg is not None}
         if isinstance(fn, tuple) and fn and fn[0] == "__encode__":
-            if args not in (["utf-8"], []) and kwargs.get("encoding") not in (None, "utf-8"):
+            enc = args[0] if args else kwargs.get("encoding", "utf-8")
+            errors = args[1] if len(args) > 1 else kwargs.get("errors", "strict")
+            if str(enc).lower().replace("_", "-") not in ("utf-8", "utf8"):
                 raise Unencodable("encode with an encoding other than utf-8", n)
+            if errors not in ("strict", "surrogatepass"):
+                # replace / ignore / backslashreplace / xmlcharrefreplace are not injective: the assumption
+                # "the encoding step is injective" no longer holds, so nothing can be concluded from the term
+                raise Unencodable(f"encode with the non-injective error handler {errors!r}", n)
             return SymBytes(fn[1])
         if isinstance(fn, tuple) and fn and fn[0] == "__hexdigest__":
             return HashVal(fn[1].pre, fn[1].digest_size)
